@@ -93,7 +93,7 @@ func check(c Case) (o ev.Outcome) {
 		}
 		before := len(o.Violations)
 		ev.Guard(&o, "compare", func() {
-			schema.CompareModules(&o, c.Set, obs, trees, canon.DiffOpts{NS: true, SkipImplicitCaseNS: true, Stmts: true}, "C07", "augmented-tree")
+			schema.CompareModules(&o, c.Set, obs, trees, canon.DiffOpts{NS: true, Stmts: true}, "C07", "augmented-tree")
 		})
 		if len(o.Violations) > before {
 			o.Violations[len(o.Violations)-1].Detail = fmt.Sprintf("load order #%d %v: %s", oi, ord, o.Violations[len(o.Violations)-1].Detail)
